@@ -306,15 +306,18 @@ func H_C01_escaperFollowsSet() { H_C10_twoSets() }
 // Execute on the pooled runtime; (2) a writer command with several arguments one of which
 // renders a template that itself uses a writer command (includeIfExists / exec) - the
 // later arguments are still escaped by the outer SafeWriter and reach the output; (3) the
-// same through a function that calls Runtime.YieldBlock. The ordinary actions are escaped
-// by the Set's escaper, exactly once.
+// same through a function that calls Runtime.YieldBlock; (5)-(7) writers as block
+// parameters, rebound between executions, writeJson; (8) a user-supplied SafeWriter
+// registered under the name of a built-in writer (raw, unsafe, safeHtml) as a Set global or
+// an Execute variable is the one that renders. The ordinary actions are escaped by the
+// Set's escaper, exactly once.
 //
 //gosym:reach rendered
 func H_C01_writerCommands() {
-	sc := ndChoice("scenario", 8)
+	sc := ndChoice("scenario", 9)
 	esc := ndChoice("esc", 3)
 	wi := 0
-	if sc <= 1 {
+	if sc <= 1 || sc == 8 {
 		wi = ndChoice("writer", 4) // the failing writer command's own writer only matters there
 	}
 	w := []string{"raw", "unsafe", "safeHtml", "mark"}[wi]
@@ -336,6 +339,7 @@ func H_C01_writerCommands() {
 		"/param.jet", `{{ block cell(wr=raw, v="<hr>") }}{{ v | wr }}{{ end }}|{{ yield cell(wr=safeHtml, v=x) }}|{{ yield cell(wr=raw, v=x) }}`,
 		"/bound.jet", `<{{ x | wv }}>`,
 		"/json.jet", `<{{ x | writeJson }}>{{ writeJson(x) }}`,
+		"/own.jet", `<{{ x | `+w+` }}>{{ `+w+`: x }}{{ try }}{{ x | `+w+` }}{{ end }}{{ range one }}{{ x | `+w+` }}{{ end }}`,
 	)
 	vars := func() VarMap {
 		v := make(VarMap)
@@ -392,6 +396,21 @@ func H_C01_writerCommands() {
 			out, err = hxExec(set, "/bound.jet", v2, nil)
 			want = "<(#" + x + "#)>"
 		}
+	case 8:
+		// a SafeWriter of the user's own under the name of a built-in one (or under a
+		// name of its own), given as a Set global or as an Execute variable: it is the
+		// user's writer that gets the value, alone
+		vfAssume(x != "")
+		v := vars()
+		if ndBool("global") {
+			set.AddGlobal(w, SafeWriter(hxMark))
+		} else {
+			v.SetWriter(w, hxMark)
+		}
+		v.Set("one", []int{1})
+		out, err = hxExec(set, "/own.jet", v, nil)
+		m := "(#" + x + "#)"
+		want = "<" + m + ">" + m + m + m
 	default:
 		// writeJson renders through its own Renderer: data-derived <, > and & never reach
 		// the output raw (printable ASCII data)
